@@ -150,6 +150,8 @@ class Ctx:
         self.stats = Stats()
         self.signs: dict = {}       # term -> set of still-possible signs (decision cache)
         self.roundings = 0
+        self.round_cache: dict = {}
+        self.eq_decisions = 0      # decisions/assumptions of the form f == 0 on this path (measure-zero paths)
         self.min_margin: Fraction | None = None
         self.inputs: dict[str, int] = {}   # user-named reals -> gen index
         self.unknown_feasibility = 0
@@ -296,6 +298,8 @@ class Ctx:
 
     def _note_sign(self, f, op, value):
         allowed = _SIGNS[op] if value else ({-1, 0, 1} - _SIGNS[op])
+        if allowed == {0}:
+            self.eq_decisions += 1
         cur = self.signs.get(f)
         self.signs[f] = (cur & allowed) if cur is not None else set(allowed)
 
@@ -617,6 +621,9 @@ class SymFloat(_real_float):
             return SymFloat(kconst(_round_fraction(v, nd)))
         if self.rnd is not None and self.rnd <= nd:
             return self          # already a multiple of 10^-rnd (syntactic idempotence)
+        hit = c.round_cache.get((self.f, nd))
+        if hit is not None:
+            return hit           # functional consistency: equal arguments round to equal results
         c.roundings += 1
         half = Fraction(5, 10 ** (nd + 1))
         g = c.new_gen(f"rd!{c.ngens}", -half, half, hint=0)
@@ -625,6 +632,7 @@ class SymFloat(_real_float):
         c.solver.add(z3.Implies(c.sign_cond(self.f, '>='), c.sign_cond(r.f, '>=')))
         c.solver.add(z3.Implies(c.sign_cond(self.f, '<='), c.sign_cond(r.f, '<=')))
         r.rnd = nd
+        c.round_cache[(self.f, nd)] = r
         return r
 
     # -- identity-ish -------------------------------------------------------------------------
